@@ -104,7 +104,16 @@ func (s *pd6) Plan(w *World) {
 		}
 		w.Chain6 = append(w.Chain6, PluginConf{"server_id", []string{kind, mac.String()}})
 	}
-	w.Chain6 = append(w.Chain6, PluginConf{"prefix", []string{fmt.Sprintf("%s/%d", base, s.poolLen), fmt.Sprint(s.alloc)}})
+	written := append(net.IP(nil), base...)
+	if t.Draw(4) == 0 {
+		// the operator writes the pool with bits set below its length (2001:db8:0:f0::/56): it still denotes the masked network
+		low := make(net.IP, 16)
+		t.Bytes(low)
+		for i := range written {
+			written[i] |= low[i] &^ m[i]
+		}
+	}
+	w.Chain6 = append(w.Chain6, PluginConf{"prefix", []string{fmt.Sprintf("%s/%d", written, s.poolLen), fmt.Sprint(s.alloc)}})
 	if t.Draw(3) == 0 {
 		w.Chain6 = append(w.Chain6, PluginConf{"dns", []string{"2001:db8::53"}})
 	}
@@ -246,6 +255,11 @@ func (s *pd6) sendOne(w *World, c *Client6) {
 					kind = "held:" + p
 					pr.exact = append(pr.exact, p)
 					pr.empty = false
+					if t.Draw(4) == 0 {
+						// the same prefix listed twice in one IA_PD
+						pd.Options.Add(&dhcpv6.OptIAPrefix{Prefix: &net.IPNet{IP: append(net.IP(nil), ip.To16()...), Mask: ipn.Mask}})
+						pr.hints = append(pr.hints, kind+"(again)")
+					}
 					break
 				}
 				fallthrough
@@ -430,6 +444,15 @@ func (s *pd6) OnInvoke(w *World, dg *DG, inv *Invocation) {
 		}
 	}
 	for _, pr := range meta.iapds {
+		if len(pr.exact) > 0 && len(pr.exact) >= len(pr.hints)-strings.Count(strings.Join(pr.hints, " "), "(again)") && !s.otherInFlight(w, dg, k) {
+			// every hint of this IA_PD names a prefix the client holds: the answer must not hand out anything else
+			for _, ap := range keys(answered[pr.iaid]) {
+				if !heldBefore[ap] && !s.held[k][ap] {
+					w.Violate("C09", "exact-new-block", "dg%d (%s): every hint of IA_PD %x names a prefix the client holds (%v), yet the answer also delegates %s", dg.ID, dg.Kind, pr.iaid, pr.exact, ap)
+					break
+				}
+			}
+		}
 		for _, ex := range pr.exact {
 			if heldBefore[ex] {
 				if !answered[pr.iaid][ex] {
